@@ -116,6 +116,21 @@ impl Maker for P {
     }
 }
 
+/// by-value method whose result is a wrapped object inside a Result
+#[cglue_trait]
+pub trait TryMaker {
+    #[wrap_with_obj(Leaf)]
+    type Own: Leaf + 'static;
+    fn try_leaf(self, fail: bool) -> Result<Self::Own, u8>;
+}
+impl TryMaker for P {
+    type Own = L;
+    fn try_leaf(self, fail: bool) -> Result<L, u8> {
+        unsafe { CTX_SEEN_IN_CALL = ctx_live() };
+        if fail { Err(self.pay.val as u8) } else { Ok(L(Pay::new(self.pay.val ^ 5))) }
+    }
+}
+
 #[cglue_trait]
 pub trait BorrowRef {
     #[wrap_with_obj_ref(LeafRO)]
